@@ -191,18 +191,26 @@ def expand_cases_C06(tier, seed):
         k = rnd.choice([x for x in keys if x != 'lg']) if rnd.random() < .5 else rnd.choice(['zzq', 'myprop', 'xx', 'qq', 'foo'])     # `lg` is the hard-wired gradient shortcut, resolved before any snippet lookup
         body = rnd.choice(['my-prop:${1:v}', 'other:a|b', 'raw ${1} text', 'foo-bar', 'grid-x:auto|none'])
         out.append({'s': k, 'c': {'snippets': {k: body}}, 'g': 'user', 'key': k, 'body': body})
+        # the same user snippet supplied through the global configuration (for the type, or for the syntax)
+        body2 = rnd.choice(['my-prop:${1:v}', 'other:a|b', 'raw ${1} text', 'grid-x:auto|none', 'width:100%;height:100%', 'margin:0 auto;padding:0 ${1}'])
+        layer = rnd.choice(['stylesheet', 'css'])
+        out.append({'s': k, 'c': {}, 'gc': {layer: {'snippets': {k: body2}}}, 'g': 'user', 'key': k, 'body': body2})
+        # a raw snippet may hold several declarations on one line
+        out.append({'s': k, 'c': {'snippets': {k: body2}}, 'g': 'user', 'key': k, 'body': body2})
     return out
 
 
 def req(case):
-    return '%s;%s' % (hx(case['s']), cfgcodec.encode(mk(case['c'])))
+    return '%s;%s' % (hx(case['s']), cfgcodec.encode(mk(case['c']), case.get('gc')))
 
 
-def outcome(ab, cfg):
+def outcome(ab, cfg, gc=None):
     from emmet import expand
     from emmet.scanner import ScannerException
     from emmet.token_scanner import TokenScannerException
-    try: return ('ok', expand(ab, cfg))
+    import dom_expand
+    dom_expand.hostile_environment()
+    try: return ('ok', expand(ab, cfg, gc) if gc is not None else expand(ab, cfg))
     except ScannerException as e: return ('scanner', e.pos)
     except TokenScannerException as e: return ('token', e.pos)
     except RecursionError: raise
@@ -244,7 +252,7 @@ def oracle_C06(case, o):
     got = strip_fields(o[1])
     g = case['g']
     body = case.get('body') if g == 'user' else stylesheet_snippets[case['key']]
-    is_prop = re.match(r'^[\w-]+(?::|$)', body) is not None and not body.startswith('@') and '\n' not in body and '{' not in body.split(':')[0] and ' ' not in body.split(':')[0]
+    is_prop = re.match(r'^[\w-]+(?::|$)', body) is not None and ';' not in body and not body.startswith('@') and '\n' not in body and '{' not in body.split(':')[0] and ' ' not in body.split(':')[0]
     scope = (case['c'].get('context') or {}).get('name')
     if g in ('key', 'user'):
         if (scope == '@@section' and is_prop) or (scope == '@@property' and not is_prop):
@@ -268,12 +276,12 @@ SHARED_CACHE = {}      # one dictionary per worker process, shared by every C06 
 
 
 def run(case, prop):
-    ab = case['s']; o = outcome(ab, mk(case['c']))
+    ab = case['s']; o = outcome(ab, mk(case['c']), case.get('gc'))
     viol = []
     if prop == 'C05' and 'spec' in case: viol = oracle_C05(case, o)
     elif prop == 'C06' and 'key' in case:
         viol = oracle_C06(case, o)
-        if 'snippets' not in case['c']:
+        if 'snippets' not in case['c'] and 'gc' not in case:
             # the same call with a cache dictionary shared with earlier calls (other scopes / syntaxes) must select the same snippet
             c2 = mk(case['c']); c2['cache'] = SHARED_CACHE
             o2 = outcome(ab, c2)
